@@ -131,6 +131,7 @@ def run(R):
     chunk_rules(R, "C12")
     wire_layout_rule(R)
     chunk_total_rule(R)
+    message_decoders_rule(R)
 
 
 def chunk_rules(R, pfx):
@@ -314,3 +315,24 @@ def chunk_total_rule(R):
         R.viol("C12.chunk.total", "chunk-refused", "<Chunk as Deserialize>::deserialize can refuse bytes that decoded (or does not build the chunk from them): a chunk value exists whose "
                "encoding does not decode", de, de.lines[0])
     R.inst("C12.chunk.total", "K5 must-follow", "decoded bytes always become Ok(Chunk::new(bytes))", n, ok)
+
+
+def message_decoders_rule(R):
+    """Request / response messages arrive through libp2p's CBOR codec, i.e. through the Deserialize / Visitor impls of everything a
+    Request or Response can contain.  None of those impls written in (or derived for) the workspace reaches a panic-capable site."""
+    F = R.F
+    roots = ["ant_protocol::messages::Request", "ant_protocol::messages::Response"]
+    missing = [r for r in roots if r not in F.adts]
+    for r in missing:
+        R.viol("C12.messages.nopanic", "anchor-missing:%s" % r, "message type not found: %s" % r)
+    clo = panics.type_closure(F, [r for r in roots if r in F.adts])
+    entries = []
+    for b in F.bodies.values():
+        if b.trait in panics.DESER_TRAITS[:3] and b.self_ty and b.kind == "assoc_fn" and any(a in b.self_ty for a in clo):
+            entries.append(b.path)
+    entries = sorted(set(entries))
+    if entries:
+        R.no_panic_reach("C12.messages.nopanic", entries, descr="no panic-capable site reachable from the Deserialize / Visitor impls of anything a Request or Response contains (%d types, %d impl fns)" % (len(clo), len(entries)),
+                         floor_bodies=60)
+    else:
+        R.viol("C12.messages.nopanic", "instance-floor", "no Deserialize impls found under Request / Response")
